@@ -554,8 +554,13 @@ def run_type(ffi, gen, rec, d, form, counts):
 
 
 def work(block):
-    """block: list of (index, spec).  One FFI for the whole block."""
+    """block: list of (index, spec), optionally preceded by the marker "API".  One FFI for the whole
+    block: in-line, or (marker) the ffi of a compiled API-mode module declaring the same types, where
+    struct types are realised lazily from the generated tables."""
     import cffi
+    api = bool(block) and block[0] == "API"
+    if api:
+        block = block[1:]
     ffi = cffi.FFI()
     built = []
     text = [NAMED]
@@ -564,6 +569,19 @@ def work(block):
         built.append((idx, spec, d))
         text.append(t)
     ffi.cdef("".join(text))
+    if api:
+        import importlib.util
+        import os
+        from .. import build as _b
+        name = "_c20api_%d_%d" % (os.getpid(), block[0][0])
+        d_ = os.path.join(_b.scratch(), name)
+        os.makedirs(d_, exist_ok=True)
+        ffi.set_source(name, "".join(text), extra_compile_args=["-O0", "-g0", "-w"])
+        so = ffi.compile(tmpdir=d_, verbose=False)
+        spec_ = importlib.util.spec_from_file_location(name, so)
+        mod = importlib.util.module_from_spec(spec_)
+        spec_.loader.exec_module(mod)
+        ffi = mod.ffi
     gen = Gen(ffi)
     rec = Recorder(ffi)
     counts = {}
@@ -614,11 +632,21 @@ def run(ctx):
     blocks = [specs[i::nblk] for i in range(nblk)]
     ntypes = ncases = nontriv = 0
     allbad = {}
-    for block, r in pool.pmap(work, [[b] for b in blocks if b]):
+    # the types with a flexible part (and, thorough, all of them) again through a compiled API-mode module
+    # (not the anonymous-union kind: a compiled module lists the members of an anonymous union as plain
+    #  fields of the enclosing struct, so positional initializers count them one by one there, while the
+    #  in-line FFI skips all but the first -- the statement does not say which reading applies)
+    api_specs = [s_ for s_ in specs if "AU" not in s_[1][1]
+                 and (ctx.quick is False or has_var(build_type(s_[1], "a%d" % s_[0])[0]))]
+    nb = 8 if ctx.quick else 32
+    api_blocks = [["API"] + api_specs[i::nb] for i in range(nb) if api_specs[i::nb]]
+    ctx.count("types_also_in_api_mode", len(api_specs))
+    for block, r in pool.pmap(work, [[b] for b in blocks if b] + [[b] for b in api_blocks], item_timeout=1800):
         if isinstance(r, pool.WorkerError):
             raise InfraError(r.tb)
         if isinstance(r, pool.Crash):
-            ctx.violation({"kind": "crash"}, {"block": [s for _, s in block][:50], "how": r.describe()})
+            ctx.violation({"kind": "crash", "api_mode": block[0] == "API"},
+                          {"block": [s for s in block if s != "API"][:50], "how": r.describe()})
             continue
         nt, nc, nn, counts, bad = r
         ntypes += nt
